@@ -86,6 +86,10 @@ type getSSEConnection struct {
 	// Prevent concurrent write conflicts
 	writeLock sync.Mutex
 
+	// closed is set (under writeLock) when the GET handler is about to return: the
+	// http.ResponseWriter must not be used after that.
+	closed bool
+
 	// Event ID generator, reuses existing sseResponder
 	sseResponder *sseResponder
 }
@@ -653,6 +657,11 @@ func (h *httpServerHandler) handleGet(ctx context.Context, w http.ResponseWriter
 		delete(h.getSSEConnections, session.GetID())
 	}
 	h.getSSEConnectionsLock.Unlock()
+	// Wait for a writer that is inside a write and keep later ones away: the response writer
+	// must not be touched once this handler has returned.
+	conn.writeLock.Lock()
+	conn.closed = true
+	conn.writeLock.Unlock()
 	h.logger.Infof("GET SSE connection closed, session ID: %s", session.GetID())
 }
 
@@ -668,6 +677,9 @@ func (h *httpServerHandler) sendNotificationToGetSSE(sessionID string, notificat
 
 	conn.writeLock.Lock()
 	defer conn.writeLock.Unlock()
+	if conn.closed {
+		return fmt.Errorf("%w: %s", ErrSessionNotFound, sessionID)
+	}
 
 	// Use SSE responder to send notification
 	eventID, err := conn.sseResponder.sendNotification(conn.writer, notification)
@@ -780,6 +792,10 @@ func (h *httpServerHandler) SendRequest(ctx context.Context, sessionID string, r
 
 	// Send the request through GET SSE using the proper sendRequest method.
 	conn.writeLock.Lock()
+	if conn.closed {
+		conn.writeLock.Unlock()
+		return nil, fmt.Errorf("no active SSE connection for session %s", sessionID)
+	}
 	eventID, err := conn.sseResponder.sendRequest(conn.writer, request)
 	if err != nil {
 		conn.writeLock.Unlock()
